@@ -40,6 +40,18 @@ func resolveServicesEnvironment(dict map[string]any, environment types.Mapping) 
 		if !ok {
 			continue
 		}
+		if mapping, ok := serviceConfig["environment"].(map[string]any); ok {
+			// mapping syntax: a key without value is resolved like a bare name of the list syntax
+			for key, value := range mapping {
+				if value != nil {
+					continue
+				}
+				if found, ok := environment[key]; ok {
+					mapping[key] = found
+				}
+			}
+			continue
+		}
 		serviceEnv, ok := serviceConfig["environment"].([]any)
 		if !ok {
 			continue
